@@ -16,6 +16,7 @@
      back    what reading returned: one set of field names per object (names under the class AFTER the read)
    Actions
      Write(sets)   FlagSerializer.pack on the current class
+     RefuseUnset   a collection with an unset (None) entry: pack raises, nothing is stored
      Extend(n)     Flag.extend({n: auto()}) between writing and reading (a plugin registers one more flag: appended)
      Redefine(o)   the database is read by another application whose class lists other/reordered fields
      Read(ext)     FlagSerializer.unpack; names of the file unknown to the class are appended first, in the arbitrary
@@ -58,6 +59,8 @@ WriteAny(sets) == /\ phase = "defined" /\ sets # <<>>
                   /\ wsets' = sets
                   /\ store' = [order |-> cls, rows |-> [i \in Ix(sets) |-> ToBytes(Val(sets[i], cls), Width(cls))]]
                   /\ phase' = "stored" /\ UNCHANGED <<cls, back>>
+\* "with any pattern of unset entries": a flag column cannot hold None (None.to_bytes) -- refused at write time
+RefuseUnset == /\ phase = "defined" /\ phase' = "refused" /\ UNCHANGED <<cls, wsets, store, back>>
 Extend(n) == /\ phase = "stored" /\ n \in Names \ Rng(cls)
              /\ cls' = Append(cls, n) /\ UNCHANGED <<phase, wsets, store, back>>
 RedefineAny(o) == /\ phase = "stored" /\ o # <<>> /\ Distinct(o) /\ o # cls
@@ -69,8 +72,9 @@ Read(ext) == /\ phase = "stored" /\ Rng(ext) = Missing /\ Len(ext) = Cardinality
              /\ phase' = "read" /\ UNCHANGED <<wsets, store>>
 
 (* ------------------------------------------------ properties ----------------------------------------------- *)
-FTypeOK == /\ phase \in {"defined", "stored", "read"} /\ Distinct(cls) /\ cls # <<>>
+FTypeOK == /\ phase \in {"defined", "stored", "read", "refused"} /\ Distinct(cls) /\ cls # <<>>
            /\ \A i \in Ix(store.rows) : Len(store.rows[i]) = Width(store.order) /\ \A j \in Ix(store.rows[i]) : store.rows[i][j] \in 0..255
+FRefusalStoresNothing == phase = "refused" => (store = NoStore /\ back = <<>>)
 \* the clause itself
 FlagMeaning == phase = "read" => back = wsets
 \* reading makes every written name known to the class and never renumbers the fields the class already had
